@@ -1,6 +1,6 @@
 SPECIFICATION Spec
 CONSTANTS TypeSet = {"pml", "periodic", "pec"}  BaseSet = {"pml"}  OvSet = {"none", "pec"}
-          MaxTh = 2  ThickMode = "few"  NX = 5  NY = 6  NZ = 7  Variant = "min_only"
+          MaxTh = 2  ThickMode = "few"  Scope = "all"  NX = 5  NY = 6  NZ = 7  Variant = "min_only"
 INVARIANT TypeOK
 INVARIANT ErrorIffUnknown
 INVARIANT TablesPerFace
@@ -12,4 +12,5 @@ INVARIANT SlabFlush
 INVARIANT OppositeDisjoint
 INVARIANT CornerExact
 INVARIANT WrapIffPeriodic
+INVARIANT InsideAvoidsPml
 CHECK_DEADLOCK FALSE
